@@ -268,6 +268,8 @@ pub struct JoinOp {
     pub left_schema: Schema,
     pub right_schema: Schema,
     pub output_schema: Schema,
+    /// Set on the join that the commutativity rule produced, so that it is not swapped back.
+    pub commuted: bool,
 }
 
 impl JoinOp {
@@ -284,6 +286,7 @@ impl JoinOp {
             left_schema,
             right_schema,
             output_schema,
+            commuted: false,
         }
     }
 
